@@ -359,7 +359,11 @@ func cliRun(prog *load.Program, env cliEnv, choices *interp.Choices) (*cliPath, 
 		n := n
 		m.Ext[n] = func(mm *interp.Machine, pos token.Pos, recv interp.Value, a []interp.Value) (interp.Value, error) {
 			e, k := errVal(n)
-			ev("stat", pos, a[0], nil, k)
+			kind := "stat"
+			if n == "os.Lstat" {
+				kind = "lstat" // looks at the path itself: a dangling link is seen
+			}
+			ev(kind, pos, a[0], nil, k)
 			fi := &interp.Opaque{Kind: "os.FileInfo", ID: "fileinfo", GoType: "os.FileInfo"}
 			return interp.Tuple{fi, e}, nil
 		}
@@ -510,16 +514,24 @@ func cliRemove(c *Ctx) {
 		}
 		key := p.Env.String() + " " + p.kinds()
 		var removes, news []int
+		nothingThere := false // os.Lstat of the -out path failed before the load: there is nothing to remove
 		for i, e := range p.Events {
 			switch e.Kind {
 			case "remove":
 				removes = append(removes, i)
 			case "new":
 				news = append(news, i)
+			case "lstat":
+				if len(news) == 0 && symIs(e.A, tokOut) && (p.NotExist[e.Err] || p.NonNil[e.Err]) {
+					nothingThere = true
+				}
 			}
 		}
 		if p.Env.Rm && p.Env.Out {
 			okBefore := len(removes) == 1 && (len(news) == 0 || removes[0] < news[0]) && symIs(p.Events[removes[0]].A, tokOut)
+			if len(removes) == 0 && nothingThere {
+				okBefore = true
+			}
 			run.Check("G-RM/before-load", key, pos, okBefore, "with -rm and -out: "+describe(p)+" — want exactly one removal, of the -out path, before the package is loaded (moq.New): a stale or broken file at -out otherwise takes part in the load")
 			if len(removes) == 1 {
 				e := p.Events[removes[0]]
